@@ -2108,6 +2108,13 @@ class Interp:
         for name, (arg, _index) in bindings.items():
             if self._never_none(arg, fr):
                 st.facts[('isnone', name)] = False  # `type(err)`, a fresh instance
+            if isinstance(arg, ast.Constant) and (
+                    arg.value is None or isinstance(arg.value, (bool, int, float, str))):
+                # a helper told what to do by a constant (`self._resume(..., throw=True)`):
+                # its tests of that parameter are decided (a store to the name drops the
+                # facts like any others)
+                st.facts[('truth', name)] = bool(arg.value)
+                st.facts[('isnone', name)] = arg.value is None
         self.stats['functions'].add(callee.key())
         self._helper_stack.append(callee.key())
         results = []
